@@ -74,3 +74,61 @@ func VerifH_C03_unary_conditional() {
 		}
 	}
 }
+
+// C03-H5: the grammar inside and around the conditional operator (ES5 11.12):
+// test is a LogicalORExpression, consequent and alternate are
+// AssignmentExpressions - so an operator of any precedence nests inside them,
+// a comma does not (syntax error in the consequent, sequence around the whole
+// conditional after the alternate) - and conditionals nest to the right.
+func VerifH_C03_conditional_grammar() {
+	verifCover("reached")
+	switch verifChoose(6) {
+	case 0: // a ? b B c : d
+		op := verifOpSlot()
+		prec, _ := verifOpInfo(op)
+		verifAssume(prec > 0)
+		e := verifExprOf("a ? b " + op + " c : d")
+		c, ok := e.(*ast.ConditionalExpression)
+		verifAssert(ok, "11.12: a ? (b B c) : d parses as a conditional")
+		if ok {
+			root, l, r := verifRootOp(c.Consequent)
+			verifAssert(verifIsIdent(c.Test, "a") && root == op && verifIsIdent(l, "b") && verifIsIdent(r, "c") && verifIsIdent(c.Alternate, "d"), "11.12: the consequent is an AssignmentExpression")
+		}
+	case 1: // a ? b , c : d  is not a program
+		_, err := newParser("", "a ? b , c : d", 1, nil).parse()
+		verifAssert(err != nil, "11.12: a comma expression is not allowed as the consequent")
+	case 2: // a ? b : c , d
+		e := verifExprOf("a ? b : c , d")
+		s, ok := e.(*ast.SequenceExpression)
+		verifAssert(ok && len(s.Sequence) == 2, "11.14: comma after the alternate ends the conditional")
+		if ok && len(s.Sequence) == 2 {
+			c, ok := s.Sequence[0].(*ast.ConditionalExpression)
+			verifAssert(ok && verifIsIdent(c.Alternate, "c") && verifIsIdent(s.Sequence[1], "d"), "11.14: (a ? b : c) , d")
+		}
+	case 3: // a ? b ? c : d : e
+		e := verifExprOf("a ? b ? c : d : e")
+		c, ok := e.(*ast.ConditionalExpression)
+		verifAssert(ok, "nested conditional in the consequent")
+		if ok {
+			in, ok := c.Consequent.(*ast.ConditionalExpression)
+			verifAssert(ok && verifIsIdent(c.Test, "a") && verifIsIdent(c.Alternate, "e") && verifIsIdent(in.Test, "b") && verifIsIdent(in.Consequent, "c") && verifIsIdent(in.Alternate, "d"), "11.12: a ? (b ? c : d) : e")
+		}
+	case 4: // a ? b : c ? d : e
+		e := verifExprOf("a ? b : c ? d : e")
+		c, ok := e.(*ast.ConditionalExpression)
+		verifAssert(ok, "nested conditional in the alternate")
+		if ok {
+			in, ok := c.Alternate.(*ast.ConditionalExpression)
+			verifAssert(ok && verifIsIdent(c.Test, "a") && verifIsIdent(c.Consequent, "b") && verifIsIdent(in.Test, "c") && verifIsIdent(in.Consequent, "d") && verifIsIdent(in.Alternate, "e"), "11.12: a ? b : (c ? d : e)")
+		}
+	default: // a ? b : c  followed by an unbalanced ':' or a missing ':'
+		var src string
+		if verifNondetBool() {
+			src = "a ? b : c : d"
+		} else {
+			src = "a ? b"
+		}
+		_, err := newParser("", src, 1, nil).parse()
+		verifAssert(err != nil, "11.12: '?' needs exactly one matching ':'")
+	}
+}
